@@ -39,10 +39,12 @@ type scenario struct {
 	LeakEpochs    [2]int // participation forced to 0.3 inside [from, to)
 	CustomSlashingsVector bool
 	DepositsFromEpoch     int
+	ForcedSlashings       bool
+	EjectionHigh          bool // EJECTION_BALANCE just below the maximum: ejections (batched exit queue) become reachable
 }
 
 func (s scenario) String() string {
-	return fmt.Sprintf("%s/%s vals=%d epochs=%d forks=%v step=%v pblock=%.2f part=%v ops=%.2f dep=%.2f leak=%v", s.Family, s.Preset, s.Validators, s.Epochs, s.ForkEpochs, s.StepEvery, s.PBlock, s.Participation, s.POps, s.PDeposits, s.LeakEpochs)
+	return fmt.Sprintf("%s/%s vals=%d epochs=%d forks=%v step=%v pblock=%.2f part=%v ops=%.2f dep=%.2f leak=%v ejectHigh=%v", s.Family, s.Preset, s.Validators, s.Epochs, s.ForkEpochs, s.StepEvery, s.PBlock, s.Participation, s.POps, s.PDeposits, s.LeakEpochs, s.EjectionHigh)
 }
 
 const ff = ^uint64(0)
@@ -71,6 +73,13 @@ func specFor(sc scenario) *common.Spec {
 	if sc.CustomSlashingsVector {
 		spec.EPOCHS_PER_SLASHINGS_VECTOR = 8
 		spec.MIN_VALIDATOR_WITHDRAWABILITY_DELAY = 2
+	}
+	if sc.EjectionHigh {
+		spec.EJECTION_BALANCE = spec.MAX_EFFECTIVE_BALANCE - spec.EFFECTIVE_BALANCE_INCREMENT
+	}
+	if sc.Family == "ejectall" {
+		// every active validator is ejected at the first epoch boundary, behind the exits of the slashings of epoch 0
+		spec.EJECTION_BALANCE = spec.MAX_EFFECTIVE_BALANCE
 	}
 	if sc.Preset == "custom" {
 		spec.MAX_COMMITTEES_PER_SLOT = 2
@@ -160,6 +169,12 @@ func drawScenario(rng *rand.Rand, family string, quick bool, forceLate ...bool) 
 		sc.Blobs = 1 + rng.IntN(6)
 		sc.Eth1Creds = 0.7
 		sc.Epochs = 9 + rng.IntN(3)
+	case "ejectall":
+		sc.Epochs = 4
+		sc.POps = 1
+		sc.ForcedSlashings = true
+		sc.ExtraBalance = false
+		sc.PBlock = 1
 	case "custom":
 		sc.Preset = "custom"
 		sc.Validators = 24 + rng.IntN(40)
@@ -175,6 +190,9 @@ func drawScenario(rng *rand.Rand, family string, quick bool, forceLate ...bool) 
 		sc.PBlock = 0.85
 		sc.POps = 0.3
 		lateForks = false
+	}
+	if (family == "leak" && rng.IntN(2) == 0) || (family == "churn" && rng.IntN(3) == 0) || (family == "ragged" && rng.IntN(4) == 0) {
+		sc.EjectionHigh = true
 	}
 	if len(forceLate) > 0 && forceLate[0] && family != "mainnet" {
 		lateForks = true
@@ -258,6 +276,9 @@ func runChain(b *fw.B, sc scenario, hooks chainHooks, report func(m *sim.Mismatc
 			}
 			plan.Exits = rng.IntN(3)
 			plan.BLSChanges = rng.IntN(3)
+		}
+		if sc.ForcedSlashings {
+			plan.AttesterSlashings, plan.ProposerSlashings = 1, rng.IntN(2)
 		}
 		if sc.Blobs > 0 {
 			plan.Blobs = rng.IntN(sc.Blobs + 1)
